@@ -401,14 +401,25 @@ def build(case):
     return b
 
 
-def expected_priors(b):
+def expected_priors(b, bi=0):
+    """log prior terms that belong to batch element bi of the objective: the entries of each prior term whose
+    owning module's batch index broadcasts (from the right) to element bi; all entries for a non-batch owner.
+    (Batch mode = independent replicas: element b of a batched objective carries only its own priors.)"""
     tg = prior_targets(b)
     out = []
+    full = tuple(b.bs)
     for p in b.case.get("priors", []):
         if p["target"] in tg:
             mod, attr = tg[p["target"]]
-            vals = getattr(mod, attr).detach().reshape(-1).tolist()
-            out.append(sum((prior_logpdf(p["spec"], CLOSURE_M[p["closure"]](mp.mpf(v))) for v in vals), mp.mpf(0)))
+            val = getattr(mod, attr).detach()
+            mbs = tuple(getattr(mod, "batch_shape", ()))
+            k = min(len(mbs), val.dim())
+            v2 = val.reshape(*val.shape[:k], -1)              # (*module batch, entries)
+            if full:
+                v2 = v2.expand(*full, v2.shape[-1]).reshape(-1, v2.shape[-1])[bi]
+            else:
+                v2 = v2.reshape(-1)
+            out.append(sum((prior_logpdf(p["spec"], CLOSURE_M[p["closure"]](mp.mpf(v))) for v in v2.reshape(-1).tolist()), mp.mpf(0)))
     return out
 
 
@@ -472,10 +483,10 @@ def elbo_terms(b):
     case = b.case
     m, n = case["m"], len(b.idx)
     Ks, mus = prior_pieces(b)
-    pri = [float(v) for v in expected_priors(b)]
     add = [a["value"] for a in case.get("added", [])]
     out = []
     for bi in range(b.nb):
+        pri = [float(v) for v in expected_priors(b, bi)]
         K, mu = Ks[bi], mus[bi]
         p1, p2 = D14.dist_params(b.dist, case["dist"], bi)
         if case["strat"] == "vs":
@@ -639,8 +650,8 @@ def run(out, ctx):
                 "implementation), one NGD step of size one from the random q lands on the collapsed bound.  BATCHED models (a batch of "
                 "sparse GPs in one ApproximateGP, batch shapes (2), (3), thorough also (2,2)): the batch shape on kernel+mean+inducing points+q(u) / on q(u) only / on the inputs "
                 "only / on everything, Gaussian likelihood batched or shared, one target vector per element; objective, KL pieces, bounds, q* and the NGD step (on the "
-                "summed objective) are checked for EVERY batch element against its own dense problem; log priors are the total over all "
-                "parameter entries of the model (as the unbatched definition; the same scalar enters every batch element).  non-trivial = every "
+                "summed objective) are checked for EVERY batch element against its own dense problem; each element carries the log priors of ITS OWN "
+                "parameter slice (entries of a prior term whose owner's batch index broadcasts to that element; all entries of a non-batch owner).  non-trivial = every "
                 "case (q(u) is random, never the prior)" % (4 if tier == "quick" else 5, 6 if tier == "quick" else 8))
     out.extra["tolerances"] = {"objective": TOL, "bound slack": 1e-8, "ELBO(q*) / NGD step vs collapsed bound": 1e-6,
                                 "gradient": "rtol %g atol %g, h=%g" % (GRAD_RTOL, GRAD_ATOL, GRAD_H)}
@@ -710,12 +721,12 @@ def run(out, ctx):
                     tparts = [torch.as_tensor(t) for t in mll2(bb.model(bb.X), bb.y, **kw)]
                 sh = torch.broadcast_shapes(*[t.shape for t in tparts])
                 ok = len(tparts) == (4 if case.get("added") else 3) and tuple(sh) == tuple(bb.bs)
-                want_pri = float(sum(expected_priors(bb), mp.mpf(0))) / case["num_data"]
                 want_add = float(sum(a["value"] for a in case.get("added", [])))
                 for bi, d in enumerate(ds):
                     if not ok:
                         break
                     parts = [float(t.expand(sh).reshape(-1)[bi]) for t in tparts]
+                    want_pri = float(sum(expected_priors(bb, bi), mp.mpf(0))) / case["num_data"]
                     want_kl = case["beta"] * float(d["kl"]) / case["num_data"]
                     ok = C.close(parts[1], want_kl, TOL, TOL) \
                         and C.close(parts[2], want_pri, TOL, TOL) and (len(parts) < 4 or C.close(parts[3], want_add, TOL, TOL)) \
